@@ -143,6 +143,8 @@ class ImplicitGrant(BaseGrant, AuthorizationEndpointMixin):
         except OAuth2Error as error:
             error.redirect_uri = redirect_uri
             error.redirect_fragment = True
+            if error.state is None:
+                error.state = self.request.state
             raise error
         return redirect_uri
 
